@@ -54,6 +54,8 @@ func TestC01(t *testing.T) {
 	st := StatsFor("C01")
 	rapid.Check(t, func(t *rapid.T) {
 		v := NewVestWorld(GenVTypes(t))
+		v.Tx = DrawTxMode(t)
+		v.Tx.Strict = true
 		app := v.App
 		var hist []string
 		note := func(f string, a ...interface{}) { hist = append(hist, fmt.Sprintf(f, a...)) }
@@ -424,7 +426,7 @@ func TestC01(t *testing.T) {
 		if mcfg.Unordered() && mintBlocks > 0 {
 			cl = append(cl, "minters_listed_out_of_order")
 		}
-		st.Case(mintBlocks > 0 && burnBlocks > 0 && acceptedMsgs > 0, map[string]interface{}{"history": hist}, cl...)
+		st.Case(mintBlocks > 0 && burnBlocks > 0 && acceptedMsgs > 0, map[string]interface{}{"history": hist}, append(cl, v.TxClasses()...)...)
 		_ = strings.Repeat
 	})
 }
